@@ -8,7 +8,7 @@ BOUNDS = {
     "quick": "two trains with 0..2 spikes each (all 9 size pairs; n1+n2 <= 3 when MRTS is symbolic), RI in {False, True}, MRTS omitted and symbolic >= 0, "
              "backends py and pyx; profile compared at the left and right limit of every piece; scalar distance; "
              "evaluation f(t) at a symbolic time for n1+n2 <= 2",
-    "thorough": "0..3 spikes each with n1+n2 <= 5 (3+3 for plain/MRTS omitted/py), same variants",
+    "thorough": "0..3 spikes each with n1+n2 <= 4 for all variants (symbolic MRTS included), 3+2 / 2+3 for plain/MRTS omitted/py",
 }
 OUTSIDE = "more spikes; float rounding"
 ASSUMPTIONS = ["oracle: hx.spike_profile_oracle - previous/following spike by scan, nearest-spike distance as a global "
@@ -24,7 +24,7 @@ def configs(tier):
             for mk in ("omit", "sym"):
                 for n1 in range(n + 1):
                     for n2 in range(n + 1):
-                        if tier != "quick" and n1 + n2 > 5 and not (be == "py" and ri == 0 and mk == "omit"):
+                        if tier != "quick" and n1 + n2 > 4 and not (be == "py" and ri == 0 and mk == "omit" and n1 + n2 == 5):
                             continue
                         if tier == "quick" and mk == "sym" and n1 + n2 > 3:
                             continue
